@@ -16,6 +16,8 @@ open GrpcModel.Driver GrpcModel.Deadline
 
 structure Mon where
   now : Nat := 0
+  pending : String := ""           -- the call the implementation said is parked: "rpc" | "send" | "recv" | ""
+  clientStreams : Bool := true     -- desc.ClientStreams of the stream made by `new`
   started : Bool := false          -- rpc op seen
   deadline : Option Nat := none    -- client deadline (absolute)
   fired : Option (Nat × Nat) := none   -- (instant, expected code) of the first context event
@@ -32,9 +34,12 @@ structure St where
   srv : Option Srv := none
   pending : List String := []      -- server events not yet reported
   race : Bool := false             -- the pending `x` event's error is a same-instant race
+  win : Nat := 65535               -- (scenario app) what is left of the stream's flow-control window
+  queued : Nat := 0                -- (scenario app) bytes accepted by SendMsg that loopy could not write yet
+  clientStreams : Bool := true     -- (scenario app) desc.ClientStreams
   mon : Mon := {}
 
-def scenarios : List String := ["pick", "squota", "wquota", "window", "header", "recv"]
+def scenarios : List String := ["pick", "squota", "wquota", "window", "header", "recv", "app"]
 
 def pref : Nat → Bool := fun _ => false
 
@@ -61,6 +66,10 @@ def showErr : CtxErr → String
   | .deadlineExceeded => "DeadlineExceeded"
   | .canceled => "Canceled"
 
+/-- `csAttempt.sendMsg` on a transport error (errStreamDone): io.EOF for a client-streaming RPC, nil for a
+    non-client-streaming one ("the generated code requires it"); the status comes from RecvMsg. -/
+def deadSend (clientStreams : Bool) : String := if clientStreams then "eof" else "ok"
+
 /-- The context fires at instant `t`: run the model, emit client and server events. -/
 def fire (st : St) (t : Nat) (e : CtxErr) : St × String :=
   match st.rpc with
@@ -68,16 +77,18 @@ def fire (st : St) (t : Nat) (e : CtxErr) : St × String :=
   | some r =>
     if st.returned then (st, "-") else
     let r1 := GrpcModel.Deadline.step false r (.ctxFire e)
-    -- a streaming application whose SendMsg failed goes on to RecvMsg for the status
+    let isApp := st.scenario == some "app"
+    -- (scenarios wquota/window) the harness' application goes on to RecvMsg for the status when SendMsg failed
     let r2 := match r1.pc with
-      | .app => GrpcModel.Deadline.run pref 0 r1 (List.replicate (r1.buf.length) .appRecv)
+      | .app => if isApp then r1 else GrpcModel.Deadline.run pref 0 r1 (List.replicate (r1.buf.length) .appRecv)
       | _ => r1
-    let out := match r2.pc with
-      | .returned c => s!"ret@{t}:{c}"
-      | _ => "-"
+    let out := match r.pc, r2.pc with
+      | _, .returned c => s!"ret@{t}:{c}"
+      | .parked .wquota, .app => if isApp then s!"snd@{t}:{deadSend st.clientStreams}" else "-"
+      | _, _ => "-"
     -- server side: the client's closeStream sent RST_STREAM; the server's own deadline may expire at the same instant
-    let (srv', pend, race) := match st.srv with
-      | none => (none, st.pending, false)
+    let (srv', pend, race) := match (if r2.rstSent && !r.rstSent then st.srv else none) with
+      | none => (st.srv, st.pending, false)
       | some sv =>
         let sv0 := { sv with now := t }
         let racing := sv0.deadline == some t
@@ -96,19 +107,54 @@ def parseEv (w : String) : Option (String × Nat × String) :=
     | _ => none
   | _ => none
 
-/-- Monitor for client-side answers of `adv` / `cancel`. -/
+/-- Monitor for client-side answers of `adv` / `cancel`: the parked call (if any) must come back in
+    the op in which the context is done, at that instant: a parked RPC / RecvMsg with the context's
+    code, a parked SendMsg with io.EOF. -/
 def clientVerdict (m : Mon) (impl : String) : Mon × String :=
   let evs := (words impl).filterMap parseEv
   let ret := evs.find? fun (k, _, _) => k == "ret"
-  match m.fired, m.retSeen, ret with
-  | some (t, c), false, some (_, t', v) =>
-    let m' := { m with retSeen := true }
-    if v.toNat? != some c then (m', s!"VIOL terminal code {v}, expected {c}")
-    else if t' != t then (m', s!"VIOL RPC returned at {t'}, the context was done at {t}")
-    else (m', "ok")
-  | some (t, c), false, none => (m, s!"VIOL RPC still blocked at {m.now}: context done at {t}, expected code {c}")
-  | _, _, some (_, _, _) => ({ m with retSeen := true }, "ok")
-  | _, _, none => (m, "ok")
+  let snd := evs.find? fun (k, _, _) => k == "snd"
+  let m0 := if ret.isSome || snd.isSome then { m with pending := "" } else m
+  match m.fired, m.retSeen, m.pending with
+  | some (t, _), false, "send" =>
+    match snd with
+    | some (_, t', v) =>
+      if v != deadSend m.clientStreams then (m0, s!"VIOL parked SendMsg returned {v}, expected {deadSend m.clientStreams}")
+      else if t' != t then (m0, s!"VIOL SendMsg returned at {t'}, the context was done at {t}")
+      else (m0, "ok")
+    | none => (m0, s!"VIOL SendMsg still blocked at {m.now}: context done at {t}")
+  | some (t, c), false, "" => if ret.isSome then ({ m0 with retSeen := true }, "ok") else (m0, "ok")
+  | some (t, c), false, _ =>
+    match ret with
+    | some (_, t', v) =>
+      let m' := { m0 with retSeen := true }
+      if v.toNat? != some c then (m', s!"VIOL terminal code {v}, expected {c}")
+      else if t' != t then (m', s!"VIOL RPC returned at {t'}, the context was done at {t}")
+      else (m', "ok")
+    | none => (m0, s!"VIOL RPC still blocked at {m.now}: context done at {t}, expected code {c}")
+  | _, _, _ => (if ret.isSome then { m0 with retSeen := true } else m0, "ok")
+
+/-- Monitor for `send` / `recv` answers of an application-driven stream. -/
+def callVerdict (m : Mon) (kind : String) (impl : String) : Mon × String :=
+  if impl.startsWith "at:" then
+    match m.fired with
+    | some (t, _) => ({ m with pending := kind }, s!"VIOL {kind} parked at {m.now} although the context was done at {t}")
+    | none => ({ m with pending := kind }, "ok")
+  else
+    let evs := (words impl).filterMap parseEv
+    let ret := evs.find? fun (k, _, _) => k == "ret"
+    let snd := evs.find? fun (k, _, _) => k == "snd"
+    let m' := if ret.isSome then { m with retSeen := true } else m
+    match m.fired, kind with
+    | some (_, c), "recv" =>
+      match ret with
+      | some (_, _, v) => if v.toNat? != some c then (m', s!"VIOL terminal code {v}, expected {c}") else (m', "ok")
+      | none => (m', "VIOL RecvMsg after the context was done did not return its status")
+    | some _, "send" =>
+      match snd with
+      | some (_, _, v) => if v != deadSend m.clientStreams then (m', s!"VIOL SendMsg after the context was done returned {v}, expected {deadSend m.clientStreams}") else (m', "ok")
+      | none => (m', "ok")
+    | _, _ => (m', "ok")
 
 /-- Monitor for `srv` answers. -/
 def serverVerdict (m : Mon) (impl : String) : Mon × String :=
@@ -144,7 +190,7 @@ def step : Step St := fun st fs impl =>
   | some sc, _ =>
     match fs with
     | ["rpc", a] =>
-      match a.toNat?, st.rpc with
+      match (if sc == "app" then none else a.toNat?), st.rpc with
       | some to, none =>
         let (r0, evs) := setup sc
         let r := GrpcModel.Deadline.run pref 0 r0 evs
@@ -161,8 +207,53 @@ def step : Step St := fun st fs impl =>
              [s!"h@{st.now}:{match sd with | some x => toString x | none => "none"}"])
           else (none, [])
         ({ st with rpc := some r, deadline := dl, srv := srv, pending := pend,
-                   mon := { st.mon with started := true, deadline := dl } }, showPos r.pc, "-")
+                   mon := { st.mon with started := true, deadline := dl, pending := "rpc" } }, showPos r.pc, "-")
       | _, _ => (st, "bad-op", "-")
+    | ["new", c, ss, h, a] =>
+      let bit (x : String) := x == "0" || x == "1"
+      match (if sc == "app" && bit c && bit ss && bit h then a.toNat? else none), st.rpc with
+      | some to, none =>
+        let r0 := GrpcModel.Deadline.St.init true false 1 1 (ss == "1")
+        let r := GrpcModel.Deadline.run pref 0 r0 ([.pickerReady] ++ (if h == "1" then [.headers] else []))
+        let dl := if to > 0 then some (st.now + to) else none
+        let sd : Option Nat := match dl with
+          | some d => match timeoutHeader st.now d with
+            | .ok hd => serverDeadline st.now hd
+            | .error _ => none
+          | none => none
+        ({ st with rpc := some r, deadline := dl, srv := some ({ now := st.now, deadline := sd } : Srv),
+                   pending := [s!"h@{st.now}:{match sd with | some x => toString x | none => "none"}"],
+                   clientStreams := c == "1",
+                   mon := { st.mon with started := true, deadline := dl, clientStreams := c == "1" } }, "ok", "-")
+      | _, _ => (st, "bad-op", "-")
+    | ["send", a] =>
+      match a.toNat?, st.rpc with
+      | some n, some r =>
+        if sc != "app" || r.pc != .app then (st, "bad-op", "-") else
+        let sz := n + 5
+        let r1 := GrpcModel.Deadline.step false r (.appSend sz)
+        let (m2, v) := callVerdict st.mon "send" impl
+        if r.sdone then ({ st with mon := m2 }, s!"snd@{st.now}:{deadSend st.clientStreams}", v)
+        else match r1.pc with
+          | .app =>
+            -- loopy writes what the stream's window allows and returns that much write quota
+            let q := st.queued + sz
+            let w := min q st.win
+            let r2 := GrpcModel.Deadline.step false r1 (.replenish w)
+            ({ st with rpc := some r2, queued := q - w, win := st.win - w, mon := m2 }, s!"snd@{st.now}:ok", v)
+          | _ => ({ st with rpc := some r1, mon := m2 }, showPos r1.pc, v)
+      | _, _ => (st, "bad-op", "-")
+    | ["recv"] =>
+      match st.rpc with
+      | some r =>
+        if sc != "app" || r.pc != .app then (st, "bad-op", "-") else
+        let r1 := GrpcModel.Deadline.step false r .appRecv
+        let (m2, v) := callVerdict st.mon "recv" impl
+        let out := match r1.pc with
+          | .returned c => s!"ret@{st.now}:{c}"
+          | pc => showPos pc
+        ({ st with rpc := some r1, returned := (match r1.pc with | .returned _ => true | _ => false), mon := m2 }, out, v)
+      | none => (st, "bad-op", "-")
     | ["cancel"] =>
       if st.rpc.isNone then (st, "bad-op", "-") else
       let (st', out) := fire st st.now .canceled
